@@ -30,8 +30,8 @@ Qed.
 Theorem foreign_where_wns : forall x w, is_sud x = true ->
   (match x with
    | QSel _ _ _ _ _ _ wh _ _ _ _ _ _ _ | QUpd _ _ _ _ _ wh _ | QDel _ _ wh => wh
-   | _ => None end) = Some (IT w) ->
-  existsb (out_of_scope (q_scope x) (q_srcs x)) (field_tables w) = true -> q_wns x = true.
+   | _ => None end) = Some w ->
+  existsb (out_of_scope (q_scope x) (q_srcs x)) (item_tables w) = true -> q_wns x = true.
 Proof.
   intros x w _ Hw He. destruct x; try discriminate Hw; cbn [q_wns q_scope q_srcs] in *; subst;
     unfold sel_wns, upd_wns, del_wns, foreign_in; rewrite He, ?orb_true_r; reflexivity.
